@@ -70,13 +70,18 @@ def rat(x) -> sp.Expr:
         return -sp.oo
     if x == int(x) and abs(x) < 1e15:
         return sp.Integer(int(x))
-    fr = Fraction(x).limit_denominator(10**12)
+    fr = Fraction(x).limit_denominator(1000)  # 1/3, 2/3, 1/6 ... written as quotients in the source
     if float(fr) == x:
         return sp.Rational(fr.numerator, fr.denominator)
     # rational multiple of pi?
     r = Fraction(x / math.pi).limit_denominator(720)
-    if r != 0 and abs(float(r) * math.pi - x) <= 2 * abs(x) * 2.3e-16:
+    if r != 0 and abs(float(r) * math.pi - x) <= 2 * abs(x) * 2.3e-16 and len(repr(x)) > 12:
         return sp.Rational(r.numerator, r.denominator) * sp.pi
+    # the shortest decimal literal that denotes this double (what the source text says), e.g.
+    # 2.903e-13 -> 2903/10**16; avoids 2**-90 denominators that choke the solvers
+    fr = Fraction(repr(x))
+    if float(fr) == x:
+        return sp.Rational(fr.numerator, fr.denominator)
     n, d = x.as_integer_ratio()
     return sp.Rational(n, d)
 
@@ -144,6 +149,40 @@ def ite(c, a, b):
     if a == b:
         return a
     return sp.Piecewise((a, c), (b, True))
+
+
+def const_leaved(e) -> bool:
+    """Piecewise all of whose leaves are numbers / truth values (an index or constant selected by masks)"""
+    if isinstance(e, sp.Piecewise):
+        return all(const_leaved(v) or v.is_number or v is sp.true or v is sp.false or isinstance(v, sp.Symbol) for v, c in e.args)
+    return False
+
+
+def map_leaves(e, f):
+    """apply f to the leaves of a (nested) Piecewise without building Eq(Piecewise, k) terms; if the
+    leaves become truth values the result is the equivalent boolean formula"""
+    if isinstance(e, sp.Piecewise):
+        parts = [(map_leaves(v, f), c) for v, c in e.args]
+        if all(isbool(v) for v, c in parts):
+            out, neg = [], []
+            for v, c in parts:
+                cond = sp.And(*(neg + [c]))
+                if v is not sp.false:
+                    out.append(cond if v is sp.true else sp.And(cond, v))
+                neg.append(sp.Not(c))
+            return sp.Or(*out)
+        parts = [(num(v) if isbool(v) else v, c) for v, c in parts]
+        return sp.Piecewise(*parts, evaluate=False)
+    return f(e)
+
+
+def leafwise(f, a, b):
+    """f(a, b) pushed into the leaves when one operand is a constant-leaved Piecewise and the other a number"""
+    if const_leaved(a) and (b.is_number or b is sp.true or b is sp.false):
+        return map_leaves(a, lambda x: f(x, b))
+    if const_leaved(b) and (a.is_number or a is sp.true or a is sp.false):
+        return map_leaves(b, lambda x: f(a, x))
+    return f(a, b)
 
 
 def _pow(a, b):
@@ -676,26 +715,26 @@ class A:
         return A(self.axes, sp.Abs(num(self.e)), self.dom)
 
     def __lt__(self, o):
-        return self._bin(o, lambda a, b: sp.Lt(num(a), num(b)))
+        return self._bin(o, lambda a, b: leafwise(sp.Lt, num(a), num(b)))
 
     def __le__(self, o):
-        return self._bin(o, lambda a, b: sp.Le(num(a), num(b)))
+        return self._bin(o, lambda a, b: leafwise(sp.Le, num(a), num(b)))
 
     def __gt__(self, o):
-        return self._bin(o, lambda a, b: sp.Gt(num(a), num(b)))
+        return self._bin(o, lambda a, b: leafwise(sp.Gt, num(a), num(b)))
 
     def __ge__(self, o):
-        return self._bin(o, lambda a, b: sp.Ge(num(a), num(b)))
+        return self._bin(o, lambda a, b: leafwise(sp.Ge, num(a), num(b)))
 
     def __eq__(self, o):  # noqa
         if o is None:
             return False
-        return self._bin(o, lambda a, b: sp.Equivalent(a, b) if isbool(a) and isbool(b) else sp.Eq(num(a), num(b)))
+        return self._bin(o, lambda a, b: sp.Equivalent(a, b) if isbool(a) and isbool(b) else leafwise(sp.Eq, num(a), num(b)))
 
     def __ne__(self, o):  # noqa
         if o is None:
             return True
-        return self._bin(o, lambda a, b: sp.Xor(a, b) if isbool(a) and isbool(b) else sp.Ne(num(a), num(b)))
+        return self._bin(o, lambda a, b: sp.Xor(a, b) if isbool(a) and isbool(b) else leafwise(sp.Ne, num(a), num(b)))
 
     __hash__ = object.__hash__
 
